@@ -4,6 +4,9 @@ import (
 	"bytes"
 	"encoding/json"
 	"fmt"
+	"hash/fnv"
+	"os"
+	"path/filepath"
 	"reflect"
 	"sort"
 	"strings"
@@ -75,6 +78,7 @@ type Op struct {
 	YAML         bool      `json:"yaml,omitempty"`          // feed the document as YAML-converted bytes
 	Reorder      bool      `json:"reorder,omitempty"`       // feed the document with all object members in reverse order
 	SharedMeta   bool      `json:"shared_meta,omitempty"`   // hand the spec validator the one Swagger meta-schema object of this run (expanded in place by earlier validations, as a caller keeping one schema around would have it) instead of the document's own fresh copy
+	FromFile     bool      `json:"from_file,omitempty"`     // the document is written to a file and loaded with loads.Spec(path): the document then has a file path, and the validator resolves $ref through its file-based branches
 	ReuseSchema  bool      `json:"reuse_schema,omitempty"`  // hand the library the very *spec.Schema object an earlier operation of this run parsed from the same text (a caller keeping its schema around)
 	ReuseDoc     bool      `json:"reuse_doc,omitempty"`     // validate the very *loads.Document an earlier operation of this run loaded (same bytes, same variant)
 	OptMode      int       `json:"opt_mode,omitempty"`      // 2: only EnableObjectArrayTypeCheck, 3: only EnableArrayMustHaveItemsCheck
@@ -674,7 +678,7 @@ func (env *Env) loadDoc(op *Op) (*loads.Document, error) {
 	if !op.ReuseDoc {
 		return loadDoc(op)
 	}
-	key := fmt.Sprintf("%v/%v/%s", op.YAML, op.Reorder, op.Doc)
+	key := fmt.Sprintf("%v/%v/%v/%s", op.YAML, op.Reorder, op.FromFile, op.Doc)
 	if d, ok := env.docs[key]; ok {
 		env.docReuses++
 		return d, nil
@@ -698,7 +702,7 @@ func loadDoc(op *Op) (*loads.Document, error) {
 	if op.Reorder {
 		raw = reorderJSON(raw)
 	}
-	if op.YAML {
+	if op.YAML && !op.FromFile {
 		// serialisation variant: JSON -> YAML text -> (loader's YAML path) -> JSON
 		y, err := jsonToYAML(raw)
 		if err != nil {
@@ -709,7 +713,53 @@ func loadDoc(op *Op) (*loads.Document, error) {
 			return nil, err
 		}
 	}
+	if op.FromFile {
+		ext := ".json"
+		if op.YAML {
+			// the real YAML loading path: a .yaml file read by the loader
+			y, err := jsonToYAML(raw)
+			if err != nil {
+				return nil, err
+			}
+			raw, ext = y, ".yaml"
+		}
+		path, err := docFile(raw, ext)
+		if err != nil {
+			return nil, err
+		}
+		return loads.Spec(path)
+	}
 	return loads.Analyzed(json.RawMessage(raw), "")
+}
+
+// docFile writes a document to a file named after its content (same path in every process of one check) and returns the path.
+func docFile(raw []byte, ext string) (string, error) {
+	dir := os.Getenv("VERIF_DOCDIR")
+	if dir == "" {
+		dir = filepath.Join(os.TempDir(), "verif-docs")
+	}
+	if err := os.MkdirAll(dir, 0o755); err != nil {
+		return "", err
+	}
+	h := fnv.New64a()
+	h.Write(raw)
+	path := filepath.Join(dir, fmt.Sprintf("doc-%016x%s", h.Sum64(), ext))
+	if _, err := os.Stat(path); err == nil {
+		return path, nil
+	}
+	tmp, err := os.CreateTemp(dir, "tmp-*")
+	if err != nil {
+		return "", err
+	}
+	if _, err := tmp.Write(raw); err != nil {
+		tmp.Close()
+		return "", err
+	}
+	tmp.Close()
+	if err := os.Rename(tmp.Name(), path); err != nil {
+		return "", err
+	}
+	return path, nil
 }
 
 // reorderJSON re-serialises a JSON text with the members of every object in reverse lexical order (a member-order
